@@ -16,8 +16,8 @@ using vh::Rec;
 typedef std::vector<long long> VL;
 typedef std::vector<VL> VVL;
 
-struct NodeData { std::atomic<uint32_t> vmin; std::atomic<uint32_t> vadd; std::atomic<uint32_t> vmax; };
-galois::DynamicBitSet bitset_vmin, bitset_vadd, bitset_vmax;
+struct NodeData { std::atomic<uint32_t> vmin; std::atomic<uint32_t> vadd; std::atomic<uint32_t> vmax; std::atomic<uint32_t> vset; };
+galois::DynamicBitSet bitset_vmin, bitset_vadd, bitset_vmax, bitset_vset;
 typedef galois::graphs::DistGraph<NodeData, uint32_t> Graph;
 typedef galois::graphs::GluonSubstrate<Graph> Substrate;
 GALOIS_SYNC_STRUCTURE_REDUCE_MIN(vmin, uint32_t);
@@ -26,6 +26,8 @@ GALOIS_SYNC_STRUCTURE_REDUCE_ADD(vadd, uint32_t);
 GALOIS_SYNC_STRUCTURE_BITSET(vadd);
 GALOIS_SYNC_STRUCTURE_REDUCE_MAX(vmax, uint32_t);
 GALOIS_SYNC_STRUCTURE_BITSET(vmax);
+GALOIS_SYNC_STRUCTURE_REDUCE_SET(vset, uint32_t);
+GALOIS_SYNC_STRUCTURE_BITSET(vset);
 
 static std::unique_ptr<Graph> partition(const std::string& policy, const std::string& gr, const std::string& tgr) {
   using namespace galois;
@@ -56,22 +58,24 @@ static vh::Out* out;
 static unsigned me, H;
 static std::vector<char> hasOut, hasIn;
 
-enum Field { F_MIN = 0, F_ADD = 1, F_MAX = 2 };
+enum Field { F_MIN = 0, F_ADD = 1, F_MAX = 2, F_SET = 3 };   // F_SET: plain assignment; at most one proxy of a node is written per round
 static uint32_t m0(Field f, uint64_t gid, int round) {   // the master's value at the start of a round
   uint32_t base = 1000 + (uint32_t)((gid * 7 + round * 13) % 500);
   return f == F_ADD ? 1 + base % 50 : base;   // never the identity, so that a refreshed mirror is recognisable
 }
-static std::atomic<uint32_t>& fld(NodeData& d, Field f) { return f == F_MIN ? d.vmin : f == F_ADD ? d.vadd : d.vmax; }
-static galois::DynamicBitSet& bits(Field f) { return f == F_MIN ? bitset_vmin : f == F_ADD ? bitset_vadd : bitset_vmax; }
+static std::atomic<uint32_t>& fld(NodeData& d, Field f) { return f == F_MIN ? d.vmin : f == F_ADD ? d.vadd : f == F_MAX ? d.vmax : d.vset; }
+static galois::DynamicBitSet& bits(Field f) { return f == F_MIN ? bitset_vmin : f == F_ADD ? bitset_vadd : f == F_MAX ? bitset_vmax : bitset_vset; }
 
 template <WriteLocation W, ReadLocation R, bool UseBitset, bool Async> static void doSync(Field f) {
   if (UseBitset) {
     if (f == F_MIN) S->sync<W, R, Reduce_min_vmin, Bitset_vmin, Async>("verif");
     else if (f == F_ADD) S->sync<W, R, Reduce_add_vadd, Bitset_vadd, false>("verif");
+    else if (f == F_SET) S->sync<W, R, Reduce_set_vset, Bitset_vset, false>("verif");
     else S->sync<W, R, Reduce_max_vmax, Bitset_vmax, Async>("verif");
   } else {
     if (f == F_MIN) S->sync<W, R, Reduce_min_vmin, galois::InvalidBitsetFnTy, Async>("verif");
     else if (f == F_ADD) S->sync<W, R, Reduce_add_vadd, galois::InvalidBitsetFnTy, false>("verif");
+    else if (f == F_SET) S->sync<W, R, Reduce_set_vset, galois::InvalidBitsetFnTy, false>("verif");
     else S->sync<W, R, Reduce_max_vmax, galois::InvalidBitsetFnTy, Async>("verif");
   }
 }
@@ -162,12 +166,12 @@ int main(int argc, char** argv) {
   // ---- C18: sync rounds
   Substrate sub(*g, net.ID, net.Num, g->isTransposed(), g->cartesianGrid(), false, noData);
   S = &sub;
-  bitset_vmin.resize(G->size()); bitset_vadd.resize(G->size()); bitset_vmax.resize(G->size());
+  bitset_vmin.resize(G->size()); bitset_vadd.resize(G->size()); bitset_vmax.resize(G->size()); bitset_vset.resize(G->size());
   static const DataCommMode modes[] = {noData, bitsetData, offsetsData, gidsData, onlyData};
   for (int round = 0; round < rounds; ++round) {
     vh::Rng pr(seed * 7919 + round);           // the plan of a round is the same on every host
     int w = (int)pr.below(3), r = (int)pr.below(3);
-    Field f = (Field)(pr.below(2) == 0 ? 1 : pr.below(3));     // add fields (the delicate ones) in two of three rounds
+    Field f = (Field)(pr.below(2) == 0 ? 1 : pr.below(4));     // add fields (the delicate ones) in more than half of the rounds
     bool useBitset = pr.below(4) != 0;
     DataCommMode mode = modes[pr.below(5)];
     int density = (int)pr.below(5);            // 0: nothing written, 1: sparse, 2: half, 3: everything eligible, 4: all but one or two
@@ -191,7 +195,10 @@ int main(int argc, char** argv) {
     // any enforced encoding; never for add fields
     // (only with an update bitset and not with the enforced dense encoding: those send everything again in every sync, so the
     // execution never becomes quiescent -- recorded as finding D17 for the applications' --metadata=none --exec=Async)
-    bool asyncRound = f != F_ADD && pr.below(3) == 0 && useBitset && mode != onlyData;
+    bool asyncRound = (f == F_MIN || f == F_MAX) && pr.below(3) == 0 && useBitset && mode != onlyData;
+    // assignment needs the update bitset and a selective encoding as well: a dense message would overwrite the master with
+    // the (old) values of proxies nobody wrote
+    if (f == F_SET && (!useBitset || mode == onlyData)) { useBitset = true; if (mode == onlyData) { mode = noData; enforcedDataMode = mode; } }
     std::vector<uint32_t> mine(G->size(), 0);   // this host's own contribution of the first step, per proxy
     vh::Rng wr(seed * 104729 + round * 64 + me);
     for (int step = 0; step < (twoStep ? 2 : 1); ++step) {
@@ -209,6 +216,7 @@ int main(int argc, char** argv) {
         // second step: masters, and mirrors that hold the identity or still their own first-step contribution (i.e. that the
         // first broadcast did not refresh); a refreshed mirror holds the total, which an application consumes first
         if (step == 1 && !G->isOwned(G->getGID(l))) { uint32_t now = fld(G->getData(l), f).load(); if (!(now == 0 || (mine[l] != 0 && now == mine[l]))) eligible = false; }
+        if (f == F_SET && (G->getGID(l) + (uint64_t)round) % H != me) eligible = false;     // one designated writer host per node
         if (!eligible || density == 0) continue;
         if (step == 1) goto write;     // second step: every proxy that may be written is
         if (density == 1 && wr.below(8) != 0) continue;
@@ -217,7 +225,7 @@ int main(int argc, char** argv) {
       write:
         uint32_t c = f == F_ADD ? 1 + (uint32_t)wr.below(9) : 900 + (uint32_t)wr.below(700);
         auto& x = fld(G->getData(l), f);
-        if (f == F_MIN) galois::atomicMin(x, c); else if (f == F_ADD) galois::atomicAdd(x, c); else galois::atomicMax(x, c);
+        if (f == F_MIN) galois::atomicMin(x, c); else if (f == F_ADD) galois::atomicAdd(x, c); else if (f == F_MAX) galois::atomicMax(x, c); else x = c;
         bits(f).set(l);
         if (step == 0) mine[l] = c;
         ++nwrites;
